@@ -1,5 +1,10 @@
 //! C13 — parsers are pure values: a history of parses through the original, a clone, a reference, Box, Rc, Arc,
 //! boxed(), Either gives for each input the same result as a fresh parser.
+//!
+//! @default harness props=C13:Q,C20:T n=2 err=Cheap timeout=900
+//! @default shape the grammar of c13_history used through ONE forwarding impl per harness (name: c13_w_<clone|ref|box|rc|arc|boxed|either>): first parse(x1) on the original, then the wrapper parses x2; compared with a fresh parser on x2
+//! @default symbolic t0..t3: u8; two independent inputs x1, x2 of length 0..=2
+//! @default aims every forwarding impl (Clone, &T, Box, Rc, Arc, Boxed, Either) gives the result of the underlying parser, whatever was parsed before
 use crate::errs::MkErr;
 use crate::obs::{same, Tr};
 use crate::prims::pc::*;
@@ -48,20 +53,16 @@ pub fn c13_history_body<S: Src>(s: &mut S) {
     cover!("cover:recover-then-fail", first.has_errors() && first.has_output());
 }
 
-/// @harness props=C13:Q,C20:T n=2 err=Cheap timeout=1200
-/// @shape the same grammar used through: clone, &p, Box<P>, Rc<P>, Arc<P>, boxed(), Either::Left / Right — after a first parse on x1, each parses x2
-/// @symbolic t0..t3: u8; x1, x2; which wrapper (0..=6)
-/// @aims every forwarding impl gives the result of the underlying parser
-pub fn c13_wrappers_body<S: Src>(s: &mut S) {
+/// the same grammar used through one forwarding impl (K): after a first parse on x1, the wrapper parses x2
+fn wrappers<const K: u8, S: Src>(s: &mut S) {
     let t = [s.u8(), s.u8(), s.u8(), s.u8()];
-    let which = s.upto(6);
     let i1 = Inp::<2>::any(s);
     let i2 = Inp::<2>::any(s);
     let (x1, x2) = (i1.get(), i2.get());
     let p = grammar(t);
     let _ = p.parse(x1);
     let fresh = grammar(t).parse(x2);
-    let got = match which {
+    let got = match K {
         0 => p.clone().parse(x2),
         1 => (&p).parse(x2),
         2 => Box::new(p.clone()).parse(x2),
@@ -82,8 +83,28 @@ pub fn c13_wrappers_body<S: Src>(s: &mut S) {
         }
     };
     same_result!("C13:wrapper-equals-fresh-parser", got, fresh);
-    cover!("cover:arc", which == 4);
-    cover!("cover:either", which == 6);
+    cover!("cover:accept", x2.len() == 2 && x2[0] == t[0] && x2[1] == t[1]);
+}
+pub fn c13_w_clone_body<S: Src>(s: &mut S) {
+    wrappers::<0, S>(s)
+}
+pub fn c13_w_ref_body<S: Src>(s: &mut S) {
+    wrappers::<1, S>(s)
+}
+pub fn c13_w_box_body<S: Src>(s: &mut S) {
+    wrappers::<2, S>(s)
+}
+pub fn c13_w_rc_body<S: Src>(s: &mut S) {
+    wrappers::<3, S>(s)
+}
+pub fn c13_w_arc_body<S: Src>(s: &mut S) {
+    wrappers::<4, S>(s)
+}
+pub fn c13_w_boxed_body<S: Src>(s: &mut S) {
+    wrappers::<5, S>(s)
+}
+pub fn c13_w_either_body<S: Src>(s: &mut S) {
+    wrappers::<6, S>(s)
 }
 
 /// @harness props=C13:Q,C11:T,C20:T n=2 err=Cheap timeout=1200
@@ -112,7 +133,13 @@ pub fn c13_recursive_memo_body<S: Src>(s: &mut S) {
 }
 
 crate::harnesses! {
-    c13_history [6] = c13_history_body;
-    c13_wrappers [6] = c13_wrappers_body;
+    c13_history [5] = c13_history_body;
+    c13_w_clone [5] = c13_w_clone_body;
+    c13_w_ref [5] = c13_w_ref_body;
+    c13_w_box [5] = c13_w_box_body;
+    c13_w_rc [5] = c13_w_rc_body;
+    c13_w_arc [5] = c13_w_arc_body;
+    c13_w_boxed [5] = c13_w_boxed_body;
+    c13_w_either [5] = c13_w_either_body;
     c13_recursive_memo [8] = c13_recursive_memo_body;
 }
